@@ -154,6 +154,17 @@ class NF:
                 return Rat(Poly.atom(f"sum({args[0]!r})"))
             kw = ",".join(f"{k.arg}={s.nf(k.value)!r}" for k in n.keywords)
             return Rat(Poly.atom(f"{f}({','.join(map(repr, args))}{',' + kw if kw else ''})"))
+        if isinstance(n, ast.Subscript) and isinstance(n.slice, ast.Constant) and isinstance(n.slice.value, int):
+            # (a - b)[i] == a[i] - b[i] : constant indexing distributes over element-wise sums (also through a propagated local)
+            base = n.value
+            if isinstance(base, ast.Name) and base.id in s.env:
+                base = s.env[base.id]
+            if isinstance(base, ast.BinOp) and isinstance(base.op, (ast.Add, ast.Sub)):
+                l = s.nf(ast.Subscript(value=base.left, slice=n.slice, ctx=ast.Load()))
+                r = s.nf(ast.Subscript(value=base.right, slice=n.slice, ctx=ast.Load()))
+                return l + r if isinstance(base.op, ast.Add) else l - r
+            if base is not n.value:
+                return Rat(Poly.atom(ast.unparse(ast.Subscript(value=base, slice=n.slice, ctx=ast.Load()))))
         if isinstance(n, ast.Attribute) or isinstance(n, ast.Subscript):
             return Rat(Poly.atom(src))
         return Rat(Poly.atom(src))
